@@ -684,8 +684,28 @@ pub fn dns_bytes_strategy(sz: MsgSize) -> impl Strategy<Value = HexBytes> {
         // further OPT pseudo-records anywhere in the message (a well-behaved sender writes at
         // most one, last; the decoder accepts more, in any section, of any version)
         proptest::collection::vec((crate::dnsconv::edns_strategy(), any::<u16>(), 0u8..6, 0u8..3), 0..3),
+        // records that name a type but carry no data (RDLENGTH 0, as in RFC 2136 prerequisites),
+        // of every type the decoder parses names in
+        proptest::collection::vec((any::<u16>(), 0u8..3, any::<u16>()), 0..2),
     )
-        .prop_map(|(mut m, c, edits, extra_opts)| {
+        .prop_map(|(mut m, c, edits, extra_opts, empty_rdata)| {
+            const NAME_BEARING: [u16; 12] = [6, 2, 5, 12, 15, 33, 17, 18, 21, 35, 39, 1];
+            for (pos, sec, ty) in empty_rdata {
+                let v = match sec {
+                    0 => &mut m.answer,
+                    1 => &mut m.authority,
+                    _ => &mut m.additional,
+                };
+                if v.is_empty() {
+                    continue;
+                }
+                let i = pick_idx(pos, v.len());
+                if v[i].rtype == dns::T_OPT {
+                    continue;
+                }
+                v[i].rtype = NAME_BEARING[pick_idx(ty, NAME_BEARING.len())];
+                v[i].rdata = dns::RData::Raw(vec![]);
+            }
             for (e, pos, sec, version) in extra_opts {
                 let Some(mut e) = e else { continue };
                 e.version = if version == 2 { 1 } else { 0 };
